@@ -93,44 +93,46 @@ def translate_c_to_cirq(source_circuit, noise_model=None, save_measurements=Fals
 
     # Maps the gate information properly. Different for each backend (order, values)
     for gate in source_circuit._gates:
+        # Name used for dispatch: a multi-controlled CNOT is translated as a CX (the source gate is left untouched)
+        gate_name = gate.name
         if gate.control is not None:
             num_controls = len(gate.control)
             control_list = [qubit_list[c] for c in gate.control]
-            if gate.name == 'CNOT' and num_controls > 1:
-                gate.name = 'CX'
-        if gate.name in {"H", "X", "Y", "Z", "S", "SDAG", "T"}:
-            target_circuit.append(GATE_CIRQ[gate.name](qubit_list[gate.target[0]]))
-        elif gate.name in {"CH", "CX", "CY", "CZ"}:
-            next_gate = GATE_CIRQ[gate.name].controlled(num_controls)
+            if gate_name == 'CNOT' and num_controls > 1:
+                gate_name = 'CX'
+        if gate_name in {"H", "X", "Y", "Z", "S", "SDAG", "T"}:
+            target_circuit.append(GATE_CIRQ[gate_name](qubit_list[gate.target[0]]))
+        elif gate_name in {"CH", "CX", "CY", "CZ"}:
+            next_gate = GATE_CIRQ[gate_name].controlled(num_controls)
             target_circuit.append(next_gate(*control_list, qubit_list[gate.target[0]]))
-        elif gate.name in {"RX", "RY", "RZ"}:
-            next_gate = GATE_CIRQ[gate.name](gate.parameter)
+        elif gate_name in {"RX", "RY", "RZ"}:
+            next_gate = GATE_CIRQ[gate_name](gate.parameter)
             target_circuit.append(next_gate(qubit_list[gate.target[0]]))
-        elif gate.name in {"CNOT"}:
-            target_circuit.append(GATE_CIRQ[gate.name](qubit_list[gate.control[0]], qubit_list[gate.target[0]]))
-        elif gate.name in {"MEASURE"}:
+        elif gate_name in {"CNOT"}:
+            target_circuit.append(GATE_CIRQ[gate_name](qubit_list[gate.control[0]], qubit_list[gate.target[0]]))
+        elif gate_name in {"MEASURE"}:
             key = str(measure_count) if save_measurements else None
-            target_circuit.append(GATE_CIRQ[gate.name](qubit_list[gate.target[0]], key=key))
+            target_circuit.append(GATE_CIRQ[gate_name](qubit_list[gate.target[0]], key=key))
             measure_count += 1
-        elif gate.name in {"CRZ", "CRX", "CRY"}:
-            next_gate = GATE_CIRQ[gate.name](gate.parameter).controlled(num_controls)
+        elif gate_name in {"CRZ", "CRX", "CRY"}:
+            next_gate = GATE_CIRQ[gate_name](gate.parameter).controlled(num_controls)
             target_circuit.append(next_gate(*control_list, qubit_list[gate.target[0]]))
-        elif gate.name in {"XX"}:
-            next_gate = GATE_CIRQ[gate.name](exponent=gate.parameter/pi, global_shift=-0.5)
+        elif gate_name in {"XX"}:
+            next_gate = GATE_CIRQ[gate_name](exponent=gate.parameter/pi, global_shift=-0.5)
             target_circuit.append(next_gate(qubit_list[gate.target[0]], qubit_list[gate.target[1]]))
-        elif gate.name in {"PHASE"}:
-            next_gate = GATE_CIRQ[gate.name](exponent=gate.parameter/pi)
+        elif gate_name in {"PHASE"}:
+            next_gate = GATE_CIRQ[gate_name](exponent=gate.parameter/pi)
             target_circuit.append(next_gate(qubit_list[gate.target[0]]))
-        elif gate.name in {"CPHASE"}:
-            next_gate = GATE_CIRQ[gate.name](exponent=gate.parameter/pi).controlled(num_controls)
+        elif gate_name in {"CPHASE"}:
+            next_gate = GATE_CIRQ[gate_name](exponent=gate.parameter/pi).controlled(num_controls)
             target_circuit.append(next_gate(*control_list, qubit_list[gate.target[0]]))
-        elif gate.name in {"SWAP"}:
-            target_circuit.append(GATE_CIRQ[gate.name](qubit_list[gate.target[0]], qubit_list[gate.target[1]]))
-        elif gate.name in {"CSWAP"}:
-            next_gate = GATE_CIRQ[gate.name].controlled(num_controls)
+        elif gate_name in {"SWAP"}:
+            target_circuit.append(GATE_CIRQ[gate_name](qubit_list[gate.target[0]], qubit_list[gate.target[1]]))
+        elif gate_name in {"CSWAP"}:
+            next_gate = GATE_CIRQ[gate_name].controlled(num_controls)
             target_circuit.append(next_gate(*control_list, qubit_list[gate.target[0]], qubit_list[gate.target[1]]))
         else:
-            raise ValueError(f"Gate '{gate.name}' not supported on backend cirq")
+            raise ValueError(f"Gate '{gate_name}' not supported on backend cirq")
 
         # Add noisy gates
         if noise_model and (gate.name in noise_model.noisy_gates):
